@@ -74,6 +74,8 @@ type VC struct {
 	dropped  map[string]int
 	entryVals []NamedTerm
 	deferLits []*ast.FuncLit
+	closureLits map[string]*closureInfo
+	quantDepth int // >0 while the body of a quantifier is being translated
 }
 
 func newVC(prog *Program, fi *FuncInfo) *VC {
@@ -94,6 +96,9 @@ func (vc *VC) fail(pos token.Pos, format string, a ...any) {
 func (vc *VC) emit(line string) { vc.script = append(vc.script, line) }
 
 func (vc *VC) fresh(prefix, sort string) Term {
+	if vc.quantDepth > 0 {
+		panic(vcError{"a construct that needs a fresh constant (" + prefix + ") is used under a quantifier"})
+	}
 	vc.n++
 	name := fmt.Sprintf("%s!%d", mangle(prefix), vc.n)
 	vc.emit(fmt.Sprintf("(declare-const %s %s)", name, sort))
@@ -102,8 +107,8 @@ func (vc *VC) fresh(prefix, sort string) Term {
 
 func (vc *VC) define(prefix string, t Term) Term {
 	// literals and plain names need no definition
-	if !strings.HasPrefix(t.S, "(") {
-		return t
+	if !strings.HasPrefix(t.S, "(") || vc.quantDepth > 0 {
+		return t // literals and names need no definition; terms over bound variables cannot be hoisted
 	}
 	vc.n++
 	name := fmt.Sprintf("%s!%d", mangle(prefix), vc.n)
@@ -113,14 +118,14 @@ func (vc *VC) define(prefix string, t Term) Term {
 
 func (vc *VC) assume(st *State, fact Term) {
 	g := Imp(st.pc, fact)
-	if g.S == "true" {
-		return
+	if g.S == "true" || vc.quantDepth > 0 {
+		return // facts mentioning a bound variable are dropped (fewer assumptions: sound)
 	}
 	vc.emit("(assert " + g.S + ")")
 }
 
 func (vc *VC) assumeGlobal(fact Term) {
-	if fact.S == "true" {
+	if fact.S == "true" || vc.quantDepth > 0 {
 		return
 	}
 	vc.emit("(assert " + fact.S + ")")
@@ -143,6 +148,17 @@ func (vc *VC) oblige(st *State, name, kind string, cond Term, pos token.Pos, tex
 	o := &Obligation{Name: vc.fi.Key + "/" + name, Kind: kind, Func: vc.fi.Key, Pos: vc.posStr(pos), ScriptLen: len(vc.script), Goal: goal, Text: text, Values: vc.entryVals}
 	vc.obls = append(vc.obls, o)
 	vc.emit("(assert " + goal.S + ")")
+}
+
+// obligeOnly records an obligation without assuming it afterwards (used where nothing downstream needs it:
+// postconditions and frame checks at a return, crash-point monitors).
+func (vc *VC) obligeOnly(st *State, name, kind string, cond Term, pos token.Pos, text string) {
+	goal := Imp(st.pc, cond)
+	if goal.S == "true" {
+		return
+	}
+	o := &Obligation{Name: vc.fi.Key + "/" + name, Kind: kind, Func: vc.fi.Key, Pos: vc.posStr(pos), ScriptLen: len(vc.script), Goal: goal, Text: text, Values: vc.entryVals}
+	vc.obls = append(vc.obls, o)
 }
 
 func (vc *VC) cover(st *State, name string, pos token.Pos) {
